@@ -24,6 +24,11 @@ streams, every case of the epochs / dual / topo-rows streams).
 `layout_stream`: the caller's matrix in a memory layout other than C order (Fortran order, transposed / strided / reversed
 views), BLAS-dot column modules, decimal-grid data with column pairs whose dot product is exactly the vigilance; the column
 module alone is handed X.T of the very same array (oracle only).
+`param_grid_stream`: the module pair installed the way sklearn's parameter grids do it — ONE `set_params` call that both
+replaces a module and sets nested hyper-parameters of it (`module_b=FuzzyART(...), module_b__rho=0.7`; module_a, both,
+plus plain eta / nested-only keys for the module that stays, keyword order shuffled), then fit: columns == the configured
+module (nested values applied) alone on X.T, rows == the configured row module alone on X under a never-vetoing reset
+function, shapes follow, partition, membership (oracle only).
 """
 from __future__ import annotations
 
@@ -830,6 +835,269 @@ def layout_stream(ctx):
 
 
 
+# ------------------------------------------------------------------ module pair configured through ONE set_params call
+
+def _scalar_keys(spec):
+    return [k for k, v in spec.items() if k != "cls" and isinstance(v, (int, float)) and not isinstance(v, bool)]
+
+
+def _mix_ok(cfg):
+    """the generators' standing assumptions on hyper-parameter combinations (see specs.elem_spec / gen.fuzzy_params)"""
+    if cfg["cls"] == "ART1":
+        return not (cfg["rho"] == 0.0 and cfg["L"] == 1.0)
+    if cfg["cls"] in ("FuzzyART", "HypersphereART", "EllipsoidART"):
+        return not (cfg["rho"] == 0.0 and cfg["alpha"] == 0.0)
+    return True
+
+
+def _candidate(r, cls, d):
+    """(spec the module is constructed with, nested hyper-parameters given in the same set_params call, resulting
+    configuration): two draws of the class's hyper-parameters that differ in a scalar one; a non-empty subset of the
+    differing ones travels as `module_x__key=value`"""
+    init = specs.elem_spec(r, cls, d)
+    for _ in range(20):
+        final = specs.elem_spec(r, cls, d)
+        diff = [k for k in _scalar_keys(init) if final[k] != init[k]]
+        if diff:
+            break
+    else:
+        return None
+    if "rho" in diff and r.random() < 0.7:
+        keys = ["rho"] + [k for k in diff if k != "rho" and r.random() < 0.3]
+    else:
+        keys = [k for k in diff if r.random() < 0.5] or [r.choice(diff)]
+    cfg = {**init, **{k: final[k] for k in keys}}
+    if not _mix_ok(cfg):
+        keys = diff
+        cfg = {**init, **{k: final[k] for k in keys}}
+    return init, {k: final[k] for k in keys}, cfg
+
+
+def _same_module(alone, mod, labels):
+    return (list(map(int, alone.labels_)) == [int(t) for t in labels] and len(alone.W) == len(mod.W) and
+            all(np.array_equal(np.asarray(u, dtype=float), np.asarray(v, dtype=float), equal_nan=True)
+                for u, v in zip(alone.W, mod.W)) and
+            [int(t) for t in alone.weight_sample_counter_] == [int(t) for t in mod.weight_sample_counter_])
+
+
+def param_grid_stream(ctx):
+    """"for all module pairs": the module pair of a BARTMAP is the one its public configuration interface installed.
+    sklearn's parameter grids (GridSearchCV / Pipeline / ParameterGrid candidates) configure an estimator with ONE
+    `set_params` call that both installs a new module and sets hyper-parameters of that module
+    (`set_params(module_b=FuzzyART(...), module_b__rho=0.7)`; the same for module_a, for both at once, together with
+    a plain `eta=` and with nested-only keys for the module that stays; keyword order shuffled), then `fit`.
+    Oracle (the statement, on the implementation alone): the column clustering (labels, weights, counters, number of
+    clusters) equals a fresh module *with the configuration the call describes* (constructor arguments of the installed
+    module overridden by the nested keys) fitted alone on X.T; when the row module was installed and the reset function
+    never vetoes (an accept-all table in place of the correlation test) the row pass is the row module's own training
+    loop, so the row clustering equals the configured row module alone on X; rows_/columns_ have (row clusters of that
+    module) x (column clusters of that module) rows, widths n_rows / n_cols; partition; membership.
+    A `set_params` call the library rejects is not judged here (the statement starts "after fit"): counted only."""
+    cov = ctx.cov
+    sides = ["b", "a", "ab", "b"]
+    n_rejected = 0
+    for i in range(ctx.scale(160, 1600)):
+        r = gen.rng_for(ctx.seed, "C17/param-grid", i)
+        side = sides[i % len(sides)]
+        nr = r.randint(3, 10)
+        square = r.random() < 0.6
+        nc = nr if square else r.choice([c for c in range(3, 11) if c != nr])
+        kind = r.choice(["grid", "grid", "float", "float", "binary"])
+        X, _meta = block_matrix(r, nr, nc, kind, wide=r.random() < 0.7)
+        pool = ["ART1", "FuzzyART", "ART1", "FuzzyART"] + CLASSES if kind == "binary" else CLASSES + ["FuzzyART", "FuzzyART"]
+        dim = {"a": nc, "b": nr}
+        old = {s: specs.elem_spec(r, r.choice(pool), dim[s]) for s in "ab"}
+        inst, nested, cfg = {}, {}, dict(old)
+        bad = False
+        for s in side:
+            cls = old[s]["cls"] if r.random() < 0.4 else r.choice(pool)    # same class as the replaced module: 40 %
+            c = _candidate(r, cls, dim[s])
+            if c is None:
+                bad = True
+                break
+            inst[s], nested[s], cfg[s] = c
+        if bad:
+            cov.hit("param-grid:no-two-configurations")
+            continue
+        # nested-only keys for the module that stays (always meant that module)
+        for s in "ab":
+            if s not in side and r.random() < 0.3:
+                c = _candidate(r, old[s]["cls"], dim[s])
+                if c is not None and _mix_ok({**old[s], **c[1]}):
+                    nested[s] = c[1]
+                    cfg[s] = {**old[s], **c[1]}
+        eta0 = r.choice(ETAS)
+        eta = r.choice(ETAS) if r.random() < 0.4 else eta0
+        # would the configured modules exist and accept the matrix at all?
+        try:
+            with quiet():
+                alone = {s: make(cfg[s]) for s in "ab"}
+                pa, pb = make(cfg["a"]), make(cfg["b"])
+                pa.validate_data(pa.prepare_data(X))
+                pb.validate_data(pb.prepare_data(X.T))
+        except Exception as e:
+            cov.hit(f"param-grid:configuration-or-data-rejected:{exc_enum(e)}")
+            continue
+        # the reset function: never vetoing when the row clause is to be judged against the row module alone
+        accept_all = "a" in side and r.random() < 0.7
+        shipped = not accept_all and square and r.random() < 0.5
+        vt = None if (accept_all or shipped) else gen.veto_table(r, nr, nr + 1)
+        reset_kind = "accept-all" if accept_all else "shipped" if shipped else "veto table"
+        # the ONE call, keyword order shuffled
+        items = [(f"module_{s}", "install", inst[s]) for s in side]
+        items += [(f"module_{s}__{k}", "value", v) for s in nested for k, v in nested[s].items()]
+        if eta != eta0:
+            items.append(("eta", "value", eta))
+        order = r.choice(["module-first", "nested-first", "shuffled"])
+        if order == "nested-first":
+            items.reverse()
+        elif order == "shuffled":
+            r.shuffle(items)
+        rep = {"stream": "param-grid", "constructed_with": {"module_a": old["a"], "module_b": old["b"], "eta": eta0},
+               "set_params_call": [[k, v] for k, _, v in items], "configured": {"module_a": cfg["a"], "module_b": cfg["b"], "eta": eta},
+               "reset_function": reset_kind, "veto": vt, "X": X}
+        try:
+            with quiet():
+                bm = BARTMAP(make(old["a"]), make(old["b"]), eta0)
+                kw = {k: (make(v) if how == "install" else v) for k, how, v in items}
+        except Exception as e:
+            ctx.issue("violation", f"BARTMAP.__init__:{exc_enum(e)}", f"constructor raised {e!r}", rep)
+            continue
+        cov.hit(f"param-grid:side:{side}")
+        cov.hit(f"param-grid:keyword-order:{order}")
+        for s in side:
+            cov.hit("param-grid:installed-class:" + ("same-as-replaced" if inst[s]["cls"] == old[s]["cls"] else "other"))
+            cov.hit(f"param-grid:install+nested:{inst[s]['cls']}")
+            cov.hit("param-grid:nested-keys:" + "+".join((["rho"] if "rho" in nested[s] else []) +
+                                                        (["other"] if set(nested[s]) - {"rho"} else [])))
+        if any(s not in side for s in nested):
+            cov.hit("param-grid:nested-only-for-the-module-that-stays")
+        if eta != eta0:
+            cov.hit("param-grid:plain-eta-in-the-same-call")
+        try:
+            with quiet():
+                ret = bm.set_params(**kw)
+        except Exception as e:
+            # not constrained by the statement ("after fit"); the unchanged library accepts every such call
+            cov.hit(f"param-grid:set_params-raised:{exc_enum(e)}")
+            n_rejected += 1
+            if n_rejected <= 2:
+                ctx.log.append(f"param-grid case {i}: set_params({', '.join(k for k, _, _ in items)}) raised {e!r}"[:300])
+            continue
+        if accept_all:
+            object.__setattr__(bm, "match_reset_func", lambda i_, w, cluster_a, params, extra, cache=None: True)
+        elif vt is not None:
+            def reset(i_, w, cluster_a, params, extra, cache=None, _vt=vt):
+                return not _vt[extra["k"]][cluster_a]
+            object.__setattr__(bm, "match_reset_func", reset)
+        cov.hit(f"param-grid:reset:{reset_kind}")
+        raised = None
+        try:
+            with quiet():
+                bm.fit(X)
+        except Exception as e:
+            raised = classify(e, X, bm)
+            if raised not in (SIG_NONSQUARE, SIG_WIDTH1) or not shipped:
+                ctx.issue("violation", "BARTMAP.set_params+fit:" + raised,
+                          f"fit raised {e!r} on a finite {nr}x{nc} matrix accepted by prepare_data/validate_data of the "
+                          f"configured modules ({cfg['a']['cls']}/{cfg['b']['cls']}, installed by one set_params call)"[:500], rep)
+                continue
+            # the two known ways the shipped reset function fails (reported by the real stream); the column module was
+            # fitted before the row pass, the column clause is still checked
+            cov.hit("param-grid:row-pass-raised:" + raised)
+        # ---- column clause: the configured column module alone on X.T
+        try:
+            with quiet():
+                alone["b"].fit(alone["b"].prepare_data(X.T))
+                cl = [int(t) for t in bm.column_labels_]
+                nb = int(bm.n_column_clusters)
+        except Exception as e:
+            ctx.issue("violation", f"BARTMAP.set_params+fit:columns-alone:{exc_enum(e)}",
+                      f"the configured column module alone raised {e!r} on X.T although BARTMAP.fit went through its column pass", rep)
+            continue
+        al_b = [int(t) for t in alone["b"].labels_]
+        rep2 = {**rep, "column_labels": cl, "nb": nb, "column_module_alone_labels": al_b,
+                "column_module_alone_n_clusters": len(alone["b"].W)}
+        what_b = (f"installed {inst['b']} with nested {nested.get('b')} in the same call" if "b" in side else
+                  f"kept {old['b']}" + (f" with nested-only {nested['b']}" if "b" in nested else ""))
+        ok = True
+        if al_b != cl or len(alone["b"].W) != nb or not _same_module(alone["b"], bm.module_b, cl):
+            ok = False
+            ctx.issue("violation", "BARTMAP.set_params+fit:columns-alone",
+                      f"{nr}x{nc} matrix; column module {what_b}: BARTMAP column_labels_ {cl} ({nb} clusters) but a fresh "
+                      f"{cfg['b']} fitted alone on X.T gives {al_b} ({len(alone['b'].W)} clusters) (or weights / counters "
+                      f"differ); set_params keywords in call order: {[k for k, _, _ in items]}"[:900], rep2)
+        else:
+            cov.hit("param-grid:columns-equal-configured-module-alone")
+            if "b" in side:
+                # would the constructor arguments alone (nested keys ignored) have clustered the columns differently?
+                with quiet():
+                    try:
+                        ign = make(inst["b"])
+                        ign.fit(ign.prepare_data(X.T))
+                        if [int(t) for t in ign.labels_] != cl:
+                            cov.hit("param-grid:nested-key-decides-the-column-clustering")
+                    except Exception:
+                        pass
+        if raised is not None:
+            continue
+        # ---- row clause, when the installed row module trained without any veto
+        st = _fitted_state(bm)
+        na = st["n_row_clusters"]
+        rl = st["row_labels_"].tolist()
+        rep2 = {**rep2, "row_labels": rl, "na": na}
+        na_want, nb_want = na, len(alone["b"].W)
+        if accept_all:
+            try:
+                with quiet():
+                    alone["a"].fit(alone["a"].prepare_data(X))
+                al_a = [int(t) for t in alone["a"].labels_]
+                rep2 = {**rep2, "row_module_alone_labels": al_a, "row_module_alone_n_clusters": len(alone["a"].W)}
+                na_want = len(alone["a"].W)
+                if al_a != rl or len(alone["a"].W) != na or not _same_module(alone["a"], bm.module_a, rl):
+                    ok = False
+                    ctx.issue("violation", "BARTMAP.set_params+fit:rows-alone",
+                              f"{nr}x{nc} matrix, reset function that never vetoes; row module installed {inst['a']} with nested "
+                              f"{nested.get('a')} in the same call: BARTMAP row_labels_ {rl} ({na} clusters) but a fresh "
+                              f"{cfg['a']} fitted alone on X gives {al_a} ({len(alone['a'].W)} clusters) (or weights / "
+                              f"counters differ); set_params keywords in call order: {[k for k, _, _ in items]}"[:900], rep2)
+                else:
+                    cov.hit("param-grid:rows-equal-configured-module-alone")
+                    with quiet():
+                        try:
+                            ign = make(inst["a"])
+                            ign.fit(ign.prepare_data(X))
+                            if [int(t) for t in ign.labels_] != rl:
+                                cov.hit("param-grid:nested-key-decides-the-row-clustering")
+                        except Exception:
+                            pass
+            except Exception as e:
+                ok = False
+                ctx.issue("violation", f"BARTMAP.set_params+fit:rows-alone:{exc_enum(e)}",
+                          f"the configured row module alone raised {e!r} on X although BARTMAP.fit returned", rep2)
+        # ---- shapes follow the configured modules; partition; membership
+        if ret is not bm:
+            ctx.issue("violation", "BARTMAP.set_params:return", "set_params did not return the estimator", rep2)
+        if st["rows_"].shape != (na_want * nb_want, nr) or st["columns_"].shape != (na_want * nb_want, nc):
+            ok = False
+            ctx.issue("violation", "BARTMAP.set_params+fit:shapes",
+                      f"rows_ {st['rows_'].shape} columns_ {st['columns_'].shape}; the configured modules give {na_want} row x "
+                      f"{nb_want} column clusters on a {nr}x{nc} matrix", rep2)
+        elif not np.all(st["rows_"].astype(int).T @ st["columns_"].astype(int) == 1):
+            ok = False
+            ctx.issue("violation", "BARTMAP.set_params+fit:partition", "some cell is not in exactly one bicluster", rep2)
+        elif not _membership_holds(st, nr, nc):
+            ok = False
+            ctx.issue("violation", "BARTMAP.set_params+fit:membership",
+                      "a bicluster differs from the pre-images of row_labels_ / column_labels_", rep2)
+        if ok:
+            cov.hit("param-grid:checkerboard-ok")
+        cov.hit("param-grid:fit-returned")
+        cov.case(("param-grid", side, repr(old), repr(inst), repr(nested), eta0, eta, X.tobytes(), repr(vt), reset_kind),
+                 na >= 2 or nb >= 2)
+    cov.branches["param-grid:set_params-calls-the-library-rejected"] = n_rejected
+
+
 def prepare(ctx):
     """Translator tie (see gen_tie.py): the source of this slice is re-translated to Lean on every run
     (harness/artv/btrans.py) and proved equal to the model the property theorems are about"""
@@ -894,6 +1162,7 @@ def run(ctx):
     dual_modules(ctx)
     pruning_row_module(ctx)
     layout_stream(ctx)
+    param_grid_stream(ctx)
 
 
 def pruning_row_module(ctx):
